@@ -295,6 +295,11 @@ func (c *gen) expr(depth int, guarded bool) (*Expr, bool) {
 	if c.cfg.OptBait && c.chance(25, "optbait") {
 		return c.bait()
 	}
+	if c.cfg.SharedRefs && c.cfg.Preds && !c.cfg.OptBait && c.chance(8, "lookaheadbait") {
+		if e, n, ok := c.lookaheadBait(); ok {
+			return e, n
+		}
+	}
 	if c.cfg.Throw && !c.noThrow && len(c.handled) > 0 && c.chance(10, "throwexpr") {
 		return &Expr{K: KThrow, Name: c.flabel()}, true
 	}
@@ -423,6 +428,27 @@ func (c *gen) bait() (*Expr, bool) {
 	// nested sequence
 	in := &Expr{K: KSeq, Sub: []*Expr{c.consuming(), c.lit()}}
 	return &Expr{K: KSeq, Sub: []*Expr{c.lit(), in}}, false
+}
+
+// lookaheadBait draws  &R R  /  !( R t ) R  /  &R ( t / R ) : a rule is evaluated inside a
+// lookahead first and for real at the same offset afterwards (whatever the lookahead does to
+// the parser besides restoring the position shows in the second evaluation - or, under
+// Memoize, in its absence).
+func (c *gen) lookaheadBait() (*Expr, bool, bool) {
+	tail := c.names[c.ruleIdx+1:]
+	if len(tail) == 0 {
+		return nil, false, false
+	}
+	name := Pick(c.t, tail, "lookaheadrule")
+	r := func() *Expr { return &Expr{K: KRef, Name: name} }
+	n := c.nullable[name]
+	switch c.intn(0, 2, "lookaheadkind") {
+	case 0:
+		return &Expr{K: KSeq, Sub: []*Expr{{K: KAnd, Sub: []*Expr{r()}}, r()}}, n, true
+	case 1:
+		return &Expr{K: KSeq, Sub: []*Expr{{K: KNot, Sub: []*Expr{{K: KSeq, Sub: []*Expr{r(), c.consuming()}}}}, r()}}, n, true
+	}
+	return &Expr{K: KSeq, Sub: []*Expr{{K: KAnd, Sub: []*Expr{r()}}, {K: KChoice, Sub: []*Expr{c.consuming(), r()}}}}, n, true
 }
 
 // shadowBait draws  l:t1 OP( l:t2 t3 ) {action} : the same label name bound in the enclosing
